@@ -947,7 +947,10 @@ theorem pushRejected_winv (cfg : ScanCfg) (hl : LangWF cfg.lang) (s s' : Scanner
       have hs2 : WInv cfg { s1 with parser := (s1.parser.push cfg.lang tok.lower).2 } := ⟨hp2, hs1.2⟩
       by_cases hr : (s1.parser.push cfg.lang tok.lower).1.isNone = true
       · rw [if_pos hr] at he; cases he; exact hs2
-      · rw [if_neg hr] at he; cases he; exact outside_winv cfg _ tok hs2
+      · rw [if_neg hr] at he
+        by_cases hi : ((s1.parser.push cfg.lang tok.lower).1 == some Err.incomplete) = true
+        · rw [if_pos hi] at he; cases he; exact hs2
+        · rw [if_neg hi] at he; cases he; exact outside_winv cfg _ tok hs2
   · rw [if_neg hn] at he; cases he
     exact outside_winv cfg s tok h
 
@@ -1153,10 +1156,15 @@ theorem pushRejected_edges (cfg : ScanCfg) (pre : List Tok) (s s' : Scanner) (to
         show Edges cfg (pre ++ [tok]) (s1.tracker.advanced pre.length).mstart (s1.tracker.advanced pre.length).mend
         rw [Tracker.advanced_closed _ _ hcl, Tracker.advanced_mend]
         exact edges_single cfg pre tok hst
-      · rw [if_neg hr] at he; cases he
-        apply EInv.outside
-        exact ⟨fun hlt => absurd hlt (by dsimp only; rw [hcl]; exact Nat.lt_irrefl _),
-          fun o ho => (hocc o ho).mono [tok]⟩
+      · rw [if_neg hr] at he
+        by_cases hi : ((s1.parser.push cfg.lang tok.lower).1 == some Err.incomplete) = true
+        · rw [if_pos hi] at he; cases he
+          exact ⟨fun hlt => absurd hlt (by dsimp only; rw [hcl]; exact Nat.lt_irrefl _),
+            fun o ho => (hocc o ho).mono [tok]⟩
+        · rw [if_neg hi] at he; cases he
+          apply EInv.outside
+          exact ⟨fun hlt => absurd hlt (by dsimp only; rw [hcl]; exact Nat.lt_irrefl _),
+            fun o ho => (hocc o ho).mono [tok]⟩
   · rw [if_neg hn] at he; cases he
     exact EInv.outside (EProp.mono h [tok]) tok
 
